@@ -14,18 +14,16 @@ import (
 // every string; two-path calls on pairs of a fixed core; a few Glob patterns;
 // Getwd.
 //
-// Levels. bfs wants one static operation list, so the list is the full
-// alphabet and an operation carries the deepest level at which it is applied:
+// Levels. The operation list is static and sorted by decreasing MaxLevel, the
+// deepest level at which an operation is applied; NumOps of the system (which
+// bfs asks after replaying a history) is the length of the prefix that applies
+// at the next level:
 //
 //	level 1 (first call of a history): every operation;
 //	level 2: operations all of whose path operands are "reduced" strings -
 //	         relative strings (incl. "") and absolute strings with a ".."
-//	         element - of <= 2 (quick) / <= 3 (thorough) segments, plus Getwd
-//	         and the fixed Glob patterns;
+//	         element - of <= 2 segments, plus Getwd and the fixed Glob patterns;
 //	level 3 (thorough): as level 2 but only strings of <= 1 segment.
-//
-// At a deeper level an operation that does not apply is answered by Step with
-// the outcome "n/a" without touching the system (counted apart).
 
 var segAlphabet = []string{"a", "f", "secret", "top", "b", ".", ".."}
 
@@ -167,7 +165,7 @@ func segCount(s string) int {
 // applied at level 1, 2, 3 (levels >= 2: reduced strings only).
 func tierSegs(tier string) []int {
 	if tier == "thorough" {
-		return []int{4, 3, 1}
+		return []int{4, 2, 1}
 	}
 
 	return []int{3, 2}
@@ -224,7 +222,23 @@ func buildOps(tier string) []opT {
 		}
 	}
 
+	sort.SliceStable(ops, func(i, j int) bool { return ops[i].MaxLevel > ops[j].MaxLevel })
+
 	return ops
+}
+
+// opsAtLevel returns how many operations (a prefix of the sorted list) apply at
+// each level 1..n.
+func opsAtLevel(ops []opT, levels int) []int {
+	n := make([]int, levels+2)
+
+	for _, o := range ops {
+		for l := 1; l <= o.MaxLevel && l <= levels; l++ {
+			n[l]++
+		}
+	}
+
+	return n
 }
 
 func isFixedGlob(s string) bool {
